@@ -322,6 +322,8 @@ impl Engine for ValEngine {
             c(&["val add i9223372036854775807 i1", "val sub i-9223372036854775808 i1", "val mul i9223372036854775807 i2"]),
             c(&["val hash i3291555020", "val eq i1 r3ff0000000000000", "val cmp i1 r3ff0000000000000", "val cmp n n", "val cmp n i0", "val cmp s6162 i2", "val cmp s61 s62", "val cmp s61 s61"]),
             c(&["val eq f1/0 f1/0", "val law_refl f1/0", "val cmp f1/0 f1/0", "val bool f1/0", "val bool s", "val bool t[]", "val bool r7ff8000000000000"]),
+            // integer division at the overflow corner and by zero (results are reals, never a panic)
+            c(&["val div i-9223372036854775808 i-1", "val div i-9223372036854775808 i1", "val div i9223372036854775807 i-1", "val div i1 i0", "val div i0 i0", "val div i-9223372036854775808 i2", "val mul i-9223372036854775808 i-1", "val sub i-9223372036854775808 i1", "val add i9223372036854775807 i1"]),
             c(&["val cmp i9007199254740993 r4340000000000000", "val cmp r8000000000000000 r0000000000000000", "val eq r8000000000000000 r0000000000000000", "val hash r8000000000000000", "val hash r0000000000000000"]),
         ]
     }
